@@ -115,7 +115,9 @@ Definition CmpUpto (a b : list Z) : option Z :=
     | _, _ => None
     end.
 
-(** the unsafe cast only re-types the string's bytes: same function in the model *)
+(** StrCmpUpto builds a slice header over the string's bytes (Data, Len, Cap = Len;
+    since the fix 907cc2b — before, it read a 3-word slice header out of the 2-word
+    string header) and calls CmpUpto: the same function of the bytes in the model *)
 Definition StrCmpUpto (a b : list Z) : option Z := CmpUpto a b.
 
 (** [int32(l)<<3 - 16 + int32(bits.OnesCount8(bs[l-1]))] *)
